@@ -123,6 +123,46 @@ class C03(E1Prop):
                 for o in seq:
                     o['dt'] = rng.choice([1, 5, 30])
                 self.script = seq
+            elif w.use_queue and rng.random() < 0.2:
+                # story: two PRs queued on the same destination; somebody
+                # fast-forwards that destination by hand to the second PR's
+                # branch; only the first PR's queue builds are green
+                d = rng.choice(dests)
+                seq = [{'op': 'open_pr', 'actor': 'alice',
+                        'src': 'bugfix/TEST-951', 'dst': d, 'kind': 'new',
+                        'from': 'old'},
+                       {'op': 'open_pr', 'actor': 'bob',
+                        'src': 'bugfix/TEST-952', 'dst': d, 'kind': 'new'},
+                       {'op': 'eval', 'p': 0}, {'op': 'eval', 'p': 1},
+                       {'op': 'ci_green_all', 'which': ['src', 'w']},
+                       {'op': 'eval', 'p': 0}, {'op': 'eval', 'p': 1},
+                       {'op': 'ff_dst', 'p': 1}]
+                for vi in range(5):
+                    seq.append({'op': 'ci', 'state': 'SUCCESSFUL',
+                                'target': ['qw', 0, vi]})
+                seq.append({'op': 'deliver_all'})
+                for o in seq:
+                    o['dt'] = rng.choice([1, 5, 30])
+                self.script = seq
+            elif w.use_queue and w.cfg.get('stabs') and rng.random() < 0.5:
+                # story: a PR on a stabilization branch is queued; every
+                # queue commit turns green except the one of the
+                # stabilization version
+                stab = [d for d in dests if d.startswith('stabilization/')]
+                seq = [{'op': 'open_pr', 'actor': 'alice',
+                        'src': 'bugfix/TEST-941', 'dst': rng.choice(stab),
+                        'kind': 'new', 'from': 'old'},
+                       {'op': 'eval', 'p': 0},
+                       {'op': 'ci_green_all', 'which': ['src', 'w']},
+                       {'op': 'eval', 'p': 0},
+                       {'op': 'ci_green_all', 'which': ['q']},
+                       {'op': 'ci', 'state': rng.choice(
+                           ['FAILED', 'INPROGRESS', 'STOPPED']),
+                        'target': ['qw_stab', 0], 'event_anyway': True},
+                       {'op': 'deliver_all'}]
+                for o in seq:
+                    o['dt'] = rng.choice([1, 5, 30])
+                self.script = seq
             elif w.use_queue and rng.random() < 0.3:
                 # story: a queued PR whose queue builds end in any state of
                 # the host contract (STOPPED = cancelled build included),
